@@ -275,9 +275,13 @@ pub fn jenkins_hashlittle2(filename: &str, hash_bits: u32) -> (u64, u8) {
     let full_hash = ((primary as u64) << 32) | (secondary as u64);
 
     // Calculate masks
+    // `hash_bits` comes straight from HET/BET table headers: a width of zero has no
+    // top bit to set, and a width below 8 has fewer bits than NameHash1 takes
     let (and_mask, or_mask) = if hash_bits < 64 {
         let and_mask = (1u64 << hash_bits) - 1;
-        let or_mask = 1u64 << (hash_bits - 1);
+        let or_mask = hash_bits
+            .checked_sub(1)
+            .map_or(0, |top_bit| 1u64 << top_bit);
         (and_mask, or_mask)
     } else {
         (0xFFFFFFFFFFFFFFFF, 0)
@@ -288,7 +292,7 @@ pub fn jenkins_hashlittle2(filename: &str, hash_bits: u32) -> (u64, u8) {
 
     // Extract NameHash1
     let name_hash1 = if hash_bits < 64 {
-        ((file_name_hash >> (hash_bits - 8)) & 0xFF) as u8
+        ((file_name_hash >> hash_bits.saturating_sub(8)) & 0xFF) as u8
     } else {
         ((file_name_hash >> 56) & 0xFF) as u8
     };
